@@ -126,7 +126,69 @@ func guardedNonNil(in ssa.Instruction, v ssa.Value) bool {
 			}
 		}
 	}
+	// a module helper that answers true for nil said false: `if x, ok := interned(v); ok { return x }`
+	for _, g := range an.GuardsAtInstr(in) {
+		if g.True {
+			continue
+		}
+		ex, ok := g.Cond.(*ssa.Extract)
+		if !ok {
+			continue
+		}
+		call, ok := ex.Tuple.(*ssa.Call)
+		if !ok {
+			continue
+		}
+		h := call.Call.StaticCallee()
+		if h == nil || h.Blocks == nil {
+			continue
+		}
+		for i, a := range call.Call.Args {
+			if i < len(h.Params) && (a == v || sameValue(a, v)) && trueForNil(h, i, ex.Index) {
+				return true
+			}
+		}
+	}
 	return false
+}
+
+// trueForNil: whenever parameter pi of h is nil, result ri of h is true: every return either carries the
+// constant true there, or is reached only past a failed comparison of the parameter with nil.
+func trueForNil(h *ssa.Function, pi, ri int) bool {
+	par := h.Params[pi]
+	if !an.IsInterface(par.Type()) {
+		return false
+	}
+	notNil := func(cond ssa.Value, taken bool) bool {
+		b, ok := cond.(*ssa.BinOp)
+		if !ok {
+			return false
+		}
+		if !(b.Op == token.EQL && !taken || b.Op == token.NEQ && taken) {
+			return false
+		}
+		return b.X == ssa.Value(par) && an.IsNilConst(b.Y) || b.Y == ssa.Value(par) && an.IsNilConst(b.X)
+	}
+	good, n := true, 0
+	an.EachInstr(h, func(in ssa.Instruction) {
+		ret, ok := in.(*ssa.Return)
+		if !ok {
+			return
+		}
+		n++
+		res := resultsOf(ret)
+		if ri >= len(res) {
+			good = false
+			return
+		}
+		if c, isC := an.ConstBool(res[ri]); isC && c {
+			return
+		}
+		if !an.AllPathsGuarded(ret.Block(), notNil) {
+			good = false
+		}
+	})
+	return good && n > 0
 }
 
 // ---------------------------------------------------------------------------
